@@ -173,6 +173,23 @@ def opsC06 : List (String × Handler) := [
         | none => throw "raise"
         | some r => return fmtOutPairs r
       | _ => throw "arity"),
+  -- c06.view n s… (L dim start step len | S dim idx | E n s'…)*   → offset, strides and lshape of the view of a contiguous tensor
+  ("c06.view", fun ts => do
+      let (s, r1) ← takeList ts
+      let rec go (fuel : Nat) (v : View Nat) (ts : List String) : Except String (View Nat) :=
+        match fuel, ts with
+        | _, [] => pure v
+        | 0, _ => throw "fuel"
+        | f + 1, "L" :: a :: b :: c :: d :: rest => do
+          go f (v.slice (← nat a) (← nat b) (← nat c) (← nat d)) rest
+        | f + 1, "S" :: a :: b :: rest => do
+          go f (v.select (← nat a) (← nat b)) rest
+        | f + 1, "E" :: rest => do
+          let (s', r2) ← takeList rest
+          go f (v.expand s') r2
+        | _, _ => throw "token"
+      let v ← go ts.length (View.ofT (tagT s)) r1
+      return s!"{v.offset} | {fmtShape v.strides} | {fmtShape v.shape}"),
   -- c06.bshape n a… n b…   → broadcastShapes only
   ("c06.bshape", fun ts => do
       let (a, r1) ← takeList ts
